@@ -224,7 +224,7 @@ struct TypedReply {
 }
 
 fn part_a(ctx: &mut Ctx) {
-    let cases = ctx.tier.pick(30_000, 500_000);
+    let cases = ctx.tier.pick(120_000, 500_000);
     let r = pt::check(ctx, "c07a", cases, final_reply_strategy(), |ctx, reply| {
         let want = expected_outcome(reply);
         let nt = !matches!(want, Outcome::Ok(_));
@@ -530,7 +530,7 @@ fn part_b(ctx: &mut Ctx) {
     }
     ctx.section("b_exhaustive", json!({"histories": total, "max_len": maxlen, "ops": n, "exhaustive": true}));
     let strat = prop::collection::vec(0..n, 5..=12).prop_map(|ix| ix.into_iter().map(|i| HOPS[i]).collect::<Vec<_>>());
-    let cases = ctx.tier.pick(8_000, 200_000);
+    let cases = ctx.tier.pick(32_000, 200_000);
     let r = pt::check(ctx, "c07b-random", cases, strat, |ctx, h| {
         let busy = run_history(h)?;
         ctx.case(if busy { Some(hash64(h)) } else { None });
@@ -806,7 +806,7 @@ fn part_c(ctx: &mut Ctx) {
         2 => Just(TOp::Yield),
     ];
     let strat = prop::collection::vec(prop::collection::vec(top, 1..12), 2..=8);
-    let cases = ctx.tier.pick(600, 20_000);
+    let cases = ctx.tier.pick(2_000, 20_000);
     let r = pt::check_with(ctx, "c07c", cases, 200, 60_000, strat, |ctx, lists| {
         let busy = run_threads(lists)?;
         ctx.case(if busy > 0 { Some(hash64(lists)) } else { None });
